@@ -62,6 +62,12 @@ def step (st : St) (toks : List String) : St × String :=
   | ["tick"] =>
     let st := { st with o := match st.o with | .single p => .single p.flush | .sharded s => .sharded s.flushAll }
     (st, dump st)
+  | ["tickput", k, val] =>   -- a Put issued during a timer flush: the outcome of `tick` then `put`
+    match parseHex k, parseVal val with
+    | some k, some val =>
+      let st := { st with o := match st.o with | .single p => .single (p.flush.put k val) | .sharded s => .sharded (s.flushAll.put k val) }
+      (st, dump st)
+    | _, _ => (st, "bad-op")
   | ["reopen"] =>
     let st := { st with o := match st.o with | .single p => .single p.reopen | .sharded s => .sharded s.reopen }
     (st, dump st)
